@@ -46,6 +46,11 @@ pub enum SelOp {
     Timeout(u8),
     /// 0 = natural previous selection, 1..=4 = Some(k-1), 5 = None
     Select(u8),
+    /// what a reload does to the link set: the link disappears from the vector and the previous
+    /// routing choice is forgotten (apply_connection_changes)
+    RemoveLink(u16),
+    /// a reload adds a fresh registering link
+    AddLink,
 }
 
 #[derive(Debug, Clone, Hash, Serialize, Deserialize)]
@@ -102,6 +107,8 @@ pub fn op() -> impl Strategy<Value = SelOp> {
         1 => (0u8..CEILINGS.len() as u8).prop_map(SelOp::Ceiling),
         1 => (0u8..TIMEOUTS.len() as u8).prop_map(SelOp::Timeout),
         14 => prop_oneof![4 => Just(0u8), 3 => 1u8..5, 1 => Just(5u8)].prop_map(SelOp::Select),
+        1 => l().prop_map(SelOp::RemoveLink),
+        1 => Just(SelOp::AddLink),
     ]
 }
 
@@ -139,6 +146,7 @@ pub struct World {
     pub seq: i32,
     pub prev_select_at: Option<u64>,
     pub step: usize,
+    pub next_id: usize,
 }
 
 impl World {
@@ -174,6 +182,7 @@ impl World {
             seq: 1,
             prev_select_at: None,
             step: 0,
+            next_id: case.n_links as usize,
         }
     }
 
@@ -264,6 +273,18 @@ impl World {
                 c.reset_for_reconnect(now);
                 c.mark_reconnect_success();
                 c.reconnection.reset_startup_grace(now);
+            }
+            SelOp::RemoveLink(l) => {
+                if n > 1 {
+                    self.links.remove(idx(*l, n));
+                    self.last_sel = None;
+                }
+            }
+            SelOp::AddLink => {
+                if n < 5 {
+                    self.links.push(new_link(self.next_id, now));
+                    self.next_id += 1;
+                }
             }
             SelOp::Mode(b) => self.cfg.mode = if *b { SchedulingMode::Classic } else { SchedulingMode::Enhanced },
             SelOp::Quality(b) => self.cfg.quality_enabled = *b,
